@@ -385,7 +385,12 @@ class Parser:
                     # Negating a zero literal yields negative zero, a signed
                     # literal — fold it here so the sign survives regardless of
                     # context (a `Neg` under REAL loses it). See `as_real`.
-                    return Decnum('-0.0', loc)
+                    # Negating a negative zero literal gives back positive zero.
+                    if isinstance(arg.as_real(), Float):
+                        # `as_real` returns a `Float` only for a negative zero
+                        return Decnum('0.0', loc)
+                    else:
+                        return Decnum('-0.0', loc)
                 elif isinstance(arg, Integer):
                     return Integer(-arg.val, loc)
                 else:
